@@ -187,9 +187,13 @@ func runCheck(p *Prop, tier string, seed int64) int {
 		cfg.ArbWide = rs.ArbWide
 		cfg.ArbNarrow = rs.ArbNarrow
 		cfg.Witnesses = true
-		cfg.MaxPathsPerHarness = 40000
-		if tier == "thorough" {
-			cfg.MaxPathsPerHarness = 120000
+		if rs.Dir == c.Mod {
+			// per-harness budget for the corpus of generated packages only; harnesses over
+			// goag's own packages are single large explorations by design
+			cfg.MaxPathsPerHarness = 40000
+			if tier == "thorough" {
+				cfg.MaxPathsPerHarness = 120000
+			}
 		}
 		if rs.Unwind > 0 {
 			cfg.Unwind = rs.Unwind
